@@ -288,7 +288,7 @@ func (s *treeSim) gen(r *core.Rand) *treeStep {
 		if r.Chance(0.2) {
 			k = s.existingKey(r)
 		}
-		return &treeStep{Op: "set", K: core.Hex(k), V: core.Hex(append([]byte{byte(s.stepNo), byte(s.stepNo >> 8)}, r.Bytes(r.Intn(4))...))}
+		return &treeStep{Op: "set", K: core.Hex(k), V: genVal(r, s.stepNo, 4)}
 	case 1:
 		k := s.existingKey(r)
 		if r.Chance(0.2) {
